@@ -27,14 +27,15 @@ class Fmt:
 
 class Atom:
     """An opaque string with an identity; `lower` marks s.lower()."""
-    __slots__ = ('name', 'lower', 'term')
+    __slots__ = ('name', 'lower', 'term', 'ends')
     S = z3.DeclareSort('Str')
     LOWER = z3.Function('str.lower', S, S)
 
-    def __init__(self, name, lower=False, term=None):
+    def __init__(self, name, lower=False, term=None, ends=None):
         self.name = name
         self.lower = lower
         self.term = term if term is not None else z3.Const(name, Atom.S)
+        self.ends = ends     # 'digit': the unknown text is known to end with a decimal digit
 
     def z3(self):
         return Atom.LOWER(self.term) if self.lower else self.term
@@ -54,6 +55,14 @@ class SStr:
 
     def __hash__(self):
         return id(self)
+
+    def sym_getitem(self, ex, k):
+        """Only s[a:] with the cut inside a leading literal part is modelled."""
+        if isinstance(k, slice) and k.stop is None and k.step is None and isinstance(k.start, int) and k.start >= 0:
+            if self.parts and isinstance(self.parts[0], str) and len(self.parts[0]) >= k.start:
+                rest = self.parts[0][k.start:]
+                return SStr(([rest] if rest else []) + list(self.parts[1:]))
+        raise Unsupported(f'subscript {k!r} on symbolic string')
 
     def truth(self, ex):
         for p in self.parts:
